@@ -19,7 +19,7 @@ T = {
          'both solves polished to 1e-11; comparison tolerance 1e-7'),
  'C05': ('E1', '4/C05', 'exhaustive enumeration of rank x data alphabet x space flags x flag values x ordered pairs on real PRISM objects; independent re-implementation of each definition',
          'Every calculate function is called on a fresh copy for every element of the product and compared with loop-based reference formulas.', 'reference formulas are the docstring mathematics'),
- 'C06': ('E2', '4/C06', 'explicit-state BFS over call histories of the real object to abstract fixpoint + all call sequences to depth 2-4 without deduplication; differential oracle vs fresh solved object',
+ 'C06': ('E2', '4/C06', 'explicit-state BFS over call histories of the real object to abstract fixpoint + all call sequences to depth 2-5 without deduplication + all 2/3-call sequences on one uncopied object with every returned object held; differential oracle vs fresh solved object',
          'All histories over 16 operations on one solved PRISM object are explored on the real code: BFS with a canonical abstract state closes (fixpoint), and every sequence up to the depth bound is additionally enumerated without deduplication; each returned value and the stored arrays are compared with a fresh identically solved object.',
          'abstraction argument in DESIGN 4/C06; Domain transforms trusted (C07/C08)'),
  'C07': ('E1+E2', '4/C07', 'exhaustive enumeration of (length x spacing x constructor) and BFS over dr/dk/length setter histories (incl. nudged values, deep and shallow copies, decoy Domains) on the real Domain; differential vs fresh Domain + exact inverse/linearity/buffer identities on basis vectors; MatrixArray transforms over flags x memory layouts x failing calls',
@@ -80,7 +80,7 @@ man = {
    {'name': 'E2', 'path': 'mc/core.py', 'serves_properties': engines.get('E2', []), 'kind_free_text': 'explicit-state BFS over call histories of real objects with canonical state hash and reference model'}],
  'checks': checks,
  'not_applicable': sorted(NA, key=lambda d: d['property_id']),
- 'notes': 'Known findings: known_findings.json (K1-K4 recorded, F1-F14 repaired by fix: commits in /repo).  Detection demonstration: seeded/ (307 property-breaking changes, 291 of them written by sub-agents that saw only the property text; catch matrix seeded/MATRIX.md) and refactors/ (64 behaviour-preserving changes on which every check stays silent); driver tools/seeded.py.  tools/run_all.sh runs every check for a list of seeds.  See DESIGN.md sections 4b, 5, 7, 9.',
+ 'notes': 'Known findings: known_findings.json (K1-K4 recorded, F1-F14 repaired by fix: commits in /repo).  Detection demonstration: seeded/ (329 property-breaking changes, 313 of them written by sub-agents that saw only the property text; catch matrix seeded/MATRIX.md) and refactors/ (64 behaviour-preserving changes on which every check stays silent); driver tools/seeded.py.  tools/run_all.sh runs every check for a list of seeds.  See DESIGN.md sections 4b, 5, 7, 9.',
 }
 json.dump(man, open(os.path.join(HERE, 'MANIFEST.json'), 'w'), indent=1)
 print('checks:', [c['property_id'] for c in checks])
